@@ -687,8 +687,19 @@ class PathRunner:
             if r == z3.sat:
                 self.refuted_names.add(name)
             if r == z3.sat and model_probe and backend == 'z3':
+                # witness minimisation: the proof side is unbounded, only the witness search is bounded (small universe)
+                m_small = None
                 try:
-                    model = model_probe(self.solver.model())
+                    from . import finite
+                    for es, er in ((1, 4), (2, 6)):
+                        r2, m2, _ = finite.refute(self.pc, neg, es, er, 2500, self.str_consts)
+                        if r2 == z3.sat:
+                            m_small = m2
+                            break
+                except Exception:
+                    m_small = None
+                try:
+                    model = model_probe(m_small if m_small is not None else self.solver.model())
                 except z3.Z3Exception:
                     model = None
         ob = Obligation(name, kind, verdict, time.time() - t0, backend, line, detail, model, self.prefix())
